@@ -638,7 +638,16 @@ func c17EnumerateTCP(sh *evidence.Shard) {
 			}
 		}
 		// class: template x config x number of cuts x deadline kind x end x outcome
-		p.Class(c.Template, "|", c.Filter, c.RD, c.Addr, "|", len(c.Cuts), fired, c.End, "|", r.hooked, r.rewrote, r.pos, r.clauseID)
+		consumed := "partial"
+		switch {
+		case r.pos <= 5:
+			consumed = fmt.Sprint(r.pos)
+		case r.pos == len(c.Data):
+			consumed = "all"
+		case c.NeedLen > 0 && r.pos >= c.NeedLen:
+			consumed = "header-complete"
+		}
+		p.Class(c.Template, "|", c.Filter, c.RD, c.Addr, "|", len(c.Cuts), fired, c.End, "|", r.hooked, r.rewrote, consumed, r.clauseID)
 		if r.rewrote {
 			p.Count("destination_rewritten", 1)
 		}
